@@ -125,22 +125,12 @@ Proof.
   { intros Ne. specialize (D r). assert (r <> reg) by (intros E; subst; rewrite String.eqb_refl in Ne; discriminate).
     rewrite (Hother r H). exact D. }
   destruct c as [[cname cval]|].
-  - destruct (rs_get s reg) as [[[nm0 v0]|]|] eqn:G.
-    + (* known state *)
-      destruct (String.eqb cname reg) eqn:EC.
-      * apply String.eqb_eq in EC. subst cname. rewrite rs_get_set. destruct (String.eqb r reg) eqn:ER.
-        -- apply String.eqb_eq in ER. subst r. pose proof (D reg) as Dr. rewrite G in Dr. lia.
-        -- exact (Keep eq_refl).
-      * pose proof (D cname) as Dc.
-        destruct (rs_get s cname) as [[[nmc vc]|]|] eqn:GC; rewrite rs_get_set; destruct (String.eqb r reg) eqn:ER;
-          try (exact (Keep eq_refl)); try exact I; apply String.eqb_eq in ER; subst r; lia.
-    + rewrite rs_get_set. destruct (String.eqb r reg) eqn:ER; [exact I | exact (Keep eq_refl)].
-    + destruct (String.eqb cname reg) eqn:EC.
-      * apply String.eqb_eq in EC. subst cname. rewrite rs_get_set. destruct (String.eqb r reg) eqn:ER.
-        -- apply String.eqb_eq in ER. subst r. pose proof (D reg) as Dr. rewrite G in Dr. lia.
-        -- exact (Keep eq_refl).
-      * pose proof (D cname) as Dc.
-        destruct (rs_get s cname) as [[[nmc vc]|]|] eqn:GC; rewrite rs_get_set; destruct (String.eqb r reg) eqn:ER;
-          try (exact (Keep eq_refl)); try exact I; apply String.eqb_eq in ER; subst r; lia.
-  - destruct (rs_get s reg) as [[[nm0 v0]|]|]; rewrite rs_get_set; (destruct (String.eqb r reg) eqn:ER; [exact I | exact (Keep eq_refl)]).
+  - destruct (String.eqb cname reg) eqn:EC.
+    + apply String.eqb_eq in EC. subst cname. pose proof (D reg) as Dr.
+      destruct (rs_get s reg) as [[[nm0 v0]|]|] eqn:G; rewrite rs_get_set; destruct (String.eqb r reg) eqn:ER;
+        try exact (Keep eq_refl); try exact I; apply String.eqb_eq in ER; subst r; lia.
+    + pose proof (D cname) as Dc.
+      destruct (rs_get s cname) as [[[nmc vc]|]|] eqn:GC; rewrite rs_get_set; destruct (String.eqb r reg) eqn:ER;
+        try exact (Keep eq_refl); try exact I; apply String.eqb_eq in ER; subst r; lia.
+  - rewrite rs_get_set. destruct (String.eqb r reg) eqn:ER; [exact I | exact (Keep eq_refl)].
 Qed.
